@@ -583,7 +583,7 @@ func perturb(v interface{}) interface{} {
 	case nil:
 		return pick("x", "")
 	case string:
-		return x + "x"
+		return perturbString(x)
 	case bool:
 		return !x
 	case stdjson.Number:
@@ -778,6 +778,20 @@ func merge3Stream(n int) {
 			p2 = chain(pick(`{"y":null,"z":[1,null]}`, `{"x":null}`, `{"x":{"w":2},"q":1}`))
 			doc = []byte(pick(`{}`, string(chain(`{"x":0,"gone":5,"y":7}`)), `{"a":{"a":1}}`))
 		}
+		if chance(0.06) {
+			// the document already holds, byte for byte, what the combined patch holds (a client that
+			// sends back what it was given): wrap both patches so that the shared text is long
+			pad := strings.Repeat(pick("x", "pad-", "0123456789"), 8+rng.Intn(8))
+			w1 := []byte(`{"w":{"in":` + string(p1) + `,"pad":"` + pad + `","gone":null}}`)
+			w2 := []byte(`{"w":{"in":` + string(p2) + `,"more":{"k":null,"v":[1,null]}}}`)
+			if mm := runMerge(true, w1, w2); mm.status == "ok" {
+				p1, p2 = w1, w2
+				doc = mm.out
+				if chance(0.5) {
+					doc = []byte(`{"id":7,` + string(mm.out[1:]))
+				}
+			}
+		}
 		emitMerge3(doc, p1, p2)
 	}
 }
@@ -868,6 +882,15 @@ func createStream(n int) {
 			a = chain(pick(`{"keep":1,"drop":2}`, `{"keep":1,"x":{"y":1}}`, `{"keep":1}`))
 			b = chain(pick(`{"keep":1}`, `{"keep":2,"drop":2}`, `{"keep":1,"new":[1]}`))
 		}
+		if chance(0.004) {
+			// EQUAL deep values below an array (compared by matchesValue, not walked by getDiff): the
+			// comparison must stay linear in the size
+			d := 30 + rng.Intn(40)
+			deep := pick(strings.Repeat(`{"a":`, d)+`1`+strings.Repeat("}", d), strings.Repeat(`[`, d)+`{"a":1}`+strings.Repeat("]", d),
+				strings.Repeat(`{"a":[`, d/2)+`null`+strings.Repeat("]}", d/2), strings.Repeat(`{"a":{"x":1},"b":`, d)+`2`+strings.Repeat("}", d))
+			a = []byte(`{"k":[` + deep + `],"z":1}`)
+			b = []byte(`{"k":[` + deep + `],"z":` + pick("1", "2") + `}`)
+		}
 		if chance(0.05) {
 			// an array of objects as a member value: one element loses, gains or changes a member
 			k := spellStr(pick("items", "a", "l"), g)
@@ -914,6 +937,27 @@ var validOps = []string{
 var hostileStrings = []string{"\"/a\xff\"", "\"/\xc3\"", "\"/a\xe2\x80\"", "\"/\xed\xa0\x80\"", "\"/a\\/b\"", "\"/\\ud83d\\ude00\"", "\"/\\ud83d\"",
 	"\"/\u00e9\"", "\"/\\u00e9~1\"", "\"/a\x80b/c\"", "\"\xff\"", "\"/\\u0000\"", "\"/\\t\"", "\"/~0\xfe~1\""}
 var jsonTypes = []string{`null`, `true`, `1`, `"s"`, `"add"`, `"/a"`, `[]`, `{}`, `["add"]`, `{"op":"add"}`, `""`, `"ADD"`, `"Add"`, `"\u0061dd"`}
+
+// manyBadBytes: a string literal with 1..12 ill-formed UTF-8 sequences (each decoded to U+FFFD, three
+// bytes for one) in one run or spread out, followed by a tail of 0..40 well-formed bytes
+func manyBadBytes() string {
+	bad := []string{"\xff", "\xc0", "\x80", "\xed\xa0\x80", "\xed\xb0\x80", "\xf8", "\xe2\x80", "\xf0\x9f\x98"}
+	var sb strings.Builder
+	sb.WriteString("\"/")
+	k := 1 + rng.Intn(12)
+	for i := 0; i < k; i++ {
+		sb.WriteString(bad[rng.Intn(len(bad))])
+		if chance(0.15) {
+			sb.WriteString(pick("a", "~1", "\\n", "/", "\u00e9"))
+		}
+	}
+	tail := rng.Intn(41)
+	for i := 0; i < tail; i++ {
+		sb.WriteString(pick("a", "b", "0", "-", "~0", "\\t", "\\u0041", "\u00e9", "x", "y"))
+	}
+	sb.WriteString("\"")
+	return sb.String()
+}
 
 func decodeCase(b []byte) {
 	pending("decode", kv{"in", hx(b)}, kv{"status", "crash"})
@@ -986,7 +1030,15 @@ func decodeStream(n int, exhaustive bool) {
 				// not valid UTF-8 (decoded as U+FFFD)
 				var m map[string]stdjson.RawMessage
 				stdjson.Unmarshal([]byte(op), &m)
-				op = rebuild(m, pick("path", "from", "path"), hostileStrings[rng.Intn(len(hostileStrings))], "", "")
+				hs := hostileStrings[rng.Intn(len(hostileStrings))]
+				if chance(0.35) {
+					hs = manyBadBytes()
+				}
+				name := pick("path", "from", "path", "value")
+				if name == "value" && chance(0.5) {
+					hs = "{" + hs + ":" + hs + "}"
+				}
+				op = rebuild(m, name, hs, "", "")
 			}
 			ops = append(ops, op)
 		}
@@ -1236,6 +1288,41 @@ func genStructType(depth int) reflect.Type {
 	return reflect.StructOf(fs)
 }
 
+// genEmbedChain: a struct promoted through several levels of anonymous fields (index paths of
+// length 2..9), with plain fields beside the embedded one at some levels and, sometimes, a name that
+// occurs at two depths (the shallower one wins)
+func genEmbedChain(levels int) reflect.Type {
+	n := 2 + rng.Intn(3)
+	var fs []reflect.StructField
+	for i := 0; i < n; i++ {
+		fs = append(fs, reflect.StructField{Name: fmt.Sprintf("In%d", i), Type: genFieldType(0), Tag: reflect.StructTag(pick("", "", `json:"p"`, `json:"q,omitempty"`, `json:"r"`)[:])})
+	}
+	seen := map[string]bool{}
+	var uniq []reflect.StructField
+	for _, f := range fs {
+		if !seen[string(f.Tag)] || f.Tag == "" {
+			uniq = append(uniq, f)
+		}
+		seen[string(f.Tag)] = true
+	}
+	inner := reflect.StructOf(uniq)
+	for i := 0; i < levels; i++ {
+		var lf []reflect.StructField
+		if chance(0.4) {
+			lf = append(lf, reflect.StructField{Name: fmt.Sprintf("L%dA", i), Type: genFieldType(0)})
+		}
+		lf = append(lf, reflect.StructField{Name: fmt.Sprintf("Emb%d", i), Type: inner, Anonymous: true})
+		if chance(0.4) {
+			lf = append(lf, reflect.StructField{Name: fmt.Sprintf("L%dB", i), Type: genFieldType(0), Tag: reflect.StructTag(pick("", `json:"b,omitempty"`)[:])})
+		}
+		if chance(0.15) {
+			lf = append(lf, reflect.StructField{Name: "In0", Type: reflect.TypeOf("")})
+		}
+		inner = reflect.StructOf(lf)
+	}
+	return inner
+}
+
 func fillValue(v reflect.Value, depth int) {
 	zero := chance(0.35)
 	switch v.Kind() {
@@ -1351,6 +1438,9 @@ func stdcmpStream(n int) {
 			continue
 		}
 		t := genStructType(2)
+		if chance(0.12) {
+			t = genEmbedChain(1 + rng.Intn(8))
+		}
 		v := reflect.New(t)
 		fillValue(v.Elem(), 2)
 		var o1, o2 []byte
@@ -1806,7 +1896,64 @@ func historyStream(n int) {
 	}
 }
 
+func minInt(a, b int) int {
+	if a < b {
+		return a
+	}
+	return b
+}
+
 func concurrentStream(n int, goroutines int) {
+	concurrentRuns(n, goroutines, false)
+}
+
+// coldChild is what one fresh process of the cold-start stream does: the FIRST library calls of the
+// process are made by all goroutines at once, in the same order behind a start barrier (whatever the
+// library initialises lazily on first use — per-type encoder and field caches, pools — is initialised
+// under contention); the solo results are computed afterwards
+func coldChild(goroutines int) {
+	concurrentRuns(1, goroutines, true)
+}
+
+// coldStartStream runs n fresh processes of this binary, each doing coldChild, and collects their cases
+func coldStartStream(n int, goroutines int, outPath string) {
+	self, err := os.Executable()
+	if err != nil {
+		fmt.Fprintln(os.Stderr, err)
+		os.Exit(2)
+	}
+	for i := 0; i < n; i++ {
+		tmp := fmt.Sprintf("%s.cold%d", outPath, i)
+		cmd := exec.Command(self, "-stream", "coldchild", "-n", "1", "-goroutines", fmt.Sprint(goroutines), "-o", tmp)
+		cmd.Env = append(os.Environ(), fmt.Sprintf("VERIF_SEED=%d", envInt("VERIF_SEED", 1)*1000+int64(i)+1))
+		outb, err := cmd.CombinedOutput()
+		data, _ := os.ReadFile(tmp)
+		os.Remove(tmp)
+		os.Remove(tmp + ".pending")
+		if err != nil && len(data) == 0 {
+			// the child died (fatal error, unrecovered panic in a goroutine of the library): a failed run
+			emit("concurrent", kv{"run", fmt.Sprintf("cold%d", i)}, kv{"goroutines", fmt.Sprint(goroutines)}, kv{"calls", "0"}, kv{"differs_at", "0"}, kv{"mutated", "0"}, kv{"died", hx(outb[:minInt(len(outb), 1500)])})
+			continue
+		}
+		for _, line := range strings.Split(string(data), "\n") {
+			if strings.HasPrefix(line, "concurrent\t") {
+				f := []kv{}
+				for _, part := range strings.Split(line, "\t")[1:] {
+					if j := strings.IndexByte(part, '='); j > 0 && part[:j] != "id" {
+						v := part[j+1:]
+						if part[:j] == "run" {
+							v = fmt.Sprintf("cold%d", i)
+						}
+						f = append(f, kv{part[:j], v})
+					}
+				}
+				emit("concurrent", f...)
+			}
+		}
+	}
+}
+
+func concurrentRuns(n int, goroutines int, cold bool) {
 	for h := 0; h < n; h++ {
 		p := mkPool()
 		k := 30 + rng.Intn(50)
@@ -1821,30 +1968,57 @@ func concurrentStream(n int, goroutines int) {
 			clone[i], _ = jsonpatch.DecodePatch(t)
 		}
 		solo := make([]string, k)
-		for i, c := range calls {
-			sc := c
-			if sc.kind == "apply" {
-				sc.patch = clone[sc.pidx]
+		soloRun := func() {
+			for i, c := range calls {
+				sc := c
+				if sc.kind == "apply" {
+					sc.patch = clone[sc.pidx]
+				}
+				solo[i] = sc.run()
 			}
-			solo[i] = sc.run()
+		}
+		if !cold {
+			soloRun()
 		}
 		snap := snapshot(p)
 		var wg sync.WaitGroup
 		bad := make([]int, goroutines)
+		got := make([][]string, goroutines)
+		start := make(chan struct{})
 		for gi := 0; gi < goroutines; gi++ {
 			wg.Add(1)
 			order := rand.New(rand.NewSource(rng.Int63())).Perm(k)
+			if cold {
+				for i := range order {
+					order[i] = i
+				}
+			}
 			go func(gi int, order []int) {
 				defer wg.Done()
 				bad[gi] = -1
+				got[gi] = make([]string, k)
+				<-start
 				for _, i := range order {
-					if r := calls[i].run(); !sameResult(calls[i].kind, r, solo[i]) && bad[gi] < 0 {
+					r := calls[i].run()
+					got[gi][i] = r
+					if !cold && !sameResult(calls[i].kind, r, solo[i]) && bad[gi] < 0 {
 						bad[gi] = i
 					}
 				}
 			}(gi, order)
 		}
+		close(start)
 		wg.Wait()
+		if cold {
+			soloRun()
+			for gi := range got {
+				for i := range calls {
+					if !sameResult(calls[i].kind, got[gi][i], solo[i]) && bad[gi] < 0 {
+						bad[gi] = i
+					}
+				}
+			}
+		}
 		firstBad := -1
 		for _, b := range bad {
 			if b >= 0 {
@@ -1858,7 +2032,7 @@ func concurrentStream(n int, goroutines int) {
 		}
 		emit("concurrent", f...)
 		// a sample of the solo results goes to the oracle as ordinary calls
-		for i := 0; i < 5 && i < k; i++ {
+		for i := 0; i < 5 && i < k && !cold; i++ {
 			ff := append([]kv{{"hist", "c" + fmt.Sprint(h)}, {"pos", fmt.Sprint(i)}}, calls[i].describe(p)...)
 			emit("hcall", append(ff, kv{"res", solo[i]})...)
 		}
@@ -2003,6 +2177,10 @@ func main() {
 		historyStream(*n)
 	case "concurrent":
 		concurrentStream(*n, *gor)
+	case "coldstart":
+		coldStartStream(*n, *gor, *outPath)
+	case "coldchild":
+		coldChild(*gor)
 	default:
 		fmt.Fprintln(os.Stderr, "unknown stream", *stream)
 		os.Exit(2)
